@@ -21,7 +21,9 @@ def nontrivial(req, obs):
     if f[0] in ("rq", "rqp", "fanin", "fwd", "e2e", "fanout"):
         return True                      # a message went through a running component
     if f[0] == "fpub":
-        return f[3] != "-"               # at least one message in the batch
+        return f[3] != "-"
+    if f[0] == "fpubr":
+        return True               # at least one message in the batch
     return False                         # atoi/itoa/utf8/constructor tables are library / construction checks
 
 
@@ -63,8 +65,9 @@ PROP = {
             "fwd: Forwarder (default topic and custom topics) with AckWhenCannotUnwrap off/on; destination topics drawn in a third of the cases from a pool holding the forwarder's OWN topic name, look-alikes of it (trailing/leading space, upper case, suffix) and plain names (a valid envelope is forwarded whatever its destination is called); x 21 payload classes (wrap, hand-written JSON, minimal, extra fields, "
             "case-insensitive keys, duplicate keys, nulls, empty destination, no destination, null, {}, garbage, empty, truncated, trailing "
             "bytes, wrong types, bad base64, array, string, number) x destination failing on every k-th message, plus concurrent bursts. "
+            "fpubr: the caller hands ONE batch (its own slice of messages) to forwarder.Publisher twice - to a second destination topic, or again after the first attempt failed - and both calls must envelope the caller's messages (uuid/payload/metadata intact, topic of that call). " 
             "fpub: forwarder.Publisher batches of 0..4 messages, default/custom forwarder topic, empty destination topic, failing wrapped "
-            "publisher; envelopes decoded with a generic JSON decode. e2e: Publisher -> scripted transport or blocking GoChannel -> Forwarder -> "
+            "publisher; envelopes decoded with a generic JSON decode. e2e: Publisher -> scripted transport or blocking GoChannel -> Forwarder (also one given its Router by the caller, Config.Router, with the forwarder topic left to its default on both sides) -> "
             "scripted destination. fanin: 1/2/4 source topics, destination failing from the k-th message on, bursts; constructor validation table. "
             "fanout: 0/1/3 subscribers per topic, two topics, idempotent AddSubscription. atoi/itoa/utf8: the strconv and utf8 models against the "
             "library on edge tables and seeded random strings. Non-trivial = a message went through a running component (or a non-empty "
